@@ -21,6 +21,7 @@ META = {
     "assumptions": ["exceptions originate in the four callback roles; interpreter errors (MemoryError...) excluded"],
 }
 META["explanation"] += ' Also: __exit__ methods that can return a true value, user callbacks driven by map / filter / itertools, DEP-C05 acc-init.'
+META["explanation"] += ' Round 5: exceptions of the model / storage raised inside the default imputers come out of impute; DEP-C12 FORMULA / NOMUT; DEP-C05 result. HAZARD: constructs that do not mean what they look like, met in the analysed code (defaults evaluated once, class-level containers changed through self, dict.fromkeys with a shared mutable value, late-binding lambdas, truth value of objects that define __len__) are reported by every check.'
 MIN_INSTANCES = {"ORDER": 6}
 
 ENTRY = ("explain_one", "explain_many", "explain_many_original")
